@@ -248,6 +248,8 @@ def check_dispatch(ctx):
         okc = any(len(lp.body) == 1 and isinstance(lp.body[0], ast.Expr) and u(lp.body[0].value) == f'self._check_index({u(lp.target)})' and path_atoms(gm[lp]) <= at for lp in loops)
         rep.add('X1', fi.site(loops[0] if loops else r[0]), 'every element of an integer index array is bounds-checked before use', okc, expected=f'for i in {ip}: self._check_index(i)', found=[u(lp)[:60] for lp in loops],
                 stmt='element bounds check')
+    deleg = [r_ for r_ in rets if isinstance(r_.value, ast.Call) and u(r_.value.func) in ('self._getitem_int', 'self._getitem_slice', 'self._getitem_bool_array', 'self._getitem_int_array')]
+    rep.account_returns('X1', fi, deleg, 'selection')
     ir = [x for x in raises if raised_name(x) == 'IndexError']
     conds = {frozenset(path_atoms(gm[x])) for x in ir}
     nd = any(('ne', '1', f'{ip}.ndim') in c for c in conds)
